@@ -470,6 +470,12 @@ func (c16) Generate(r *rand.Rand, t string) []*Case {
 	for i := 0; i < nr; i++ {
 		out = append(out, c16RenamedCase(r, i))
 	}
+	// stream fill-between-renders (c16_fill.go): pairs with placeholder keys / values are
+	// rendered, extended through retained pointers and rendered again
+	nf := tier(t, 2500, 40000)
+	for i := 0; i < nf; i++ {
+		out = append(out, c16FillCase(r, i))
+	}
 	return out
 }
 
@@ -669,6 +675,9 @@ func c16SortedLines(s string) string {
 // on the neighbouring lines; no string of the pools holds two blanks in a row), and
 // everything else (kinds, imports) exactly.
 func (c16) Compare(c *Case, exp, got []hist.Obs) string {
+	if m, ok := c.Meta["c16f"].(*c16fMeta); ok {
+		return c08fCompare(m.F.Views, exp, got) // key texts are pairwise distinct; the replayed renders are left out
+	}
 	if c.Meta["dup"] != true {
 		return CompareAll(exp, got)
 	}
@@ -858,6 +867,9 @@ func C16Check(src, view string, exp []C16KV) string {
 }
 
 func (c16) Oracle(c *Case, got []hist.Obs) string {
+	if m, ok := c.Meta["c16f"].(*c16fMeta); ok {
+		return c16fOracle(m, got)
+	}
 	exp, _ := c.Meta["exp"].([]C16KV)
 	views, _ := c.Meta["views"].([]string)
 	if len(got) != len(views) {
